@@ -44,6 +44,8 @@ def run_stream(case, ctx):
     stored = 0  # number of rows handed to the 1-step buffer so far
     tol = 0.0 if gamma in (0.0, 0.5, 1.0) else 1e-5
 
+    clears = set(case.get("clears", []))  # after these steps both buffers are clear()ed and then used again
+    base, cand_base, stored_ks = 0, None, []
     positions = set()
     for t in range(T):
         for e in range(E):
@@ -74,9 +76,24 @@ def run_stream(case, ctx):
             one = nbuf.add(td)
             if one is not None:
                 mem.add(one)
-        if t < n - 1:
+        if cand_base is not None and t - base >= n - 1:
+            # what clear() does to the partly filled window is not specified: the window may go on sliding over the stream
+            # (as on this tree) or restart empty.  The first add at which a kept window is full tells which (a restarted
+            # window is still filling then); both are then held to the statement
+            if one is None and t - cand_base < n - 1:
+                base = cand_base
+                ctx.label("clear:window-restarted")
+            else:
+                ctx.label("clear:window-kept")
+            cand_base = None
+        if t - base < n - 1:
             ctx.check(one is None, "C10/returned/early_return",
                       "add returned a transition before n steps were seen", t=t, n=n)
+            if t in clears:
+                with ctx.promised("C10/clear"):
+                    nbuf.clear()
+                    mem.clear()
+                stored_ks, cand_base = [], t + 1
             continue
         if one is None:
             ctx.abort("C10/returned/none_after_n", "add returned None although the window is full", t=t, n=n)
@@ -91,7 +108,15 @@ def run_stream(case, ctx):
                   "value returned by add() does not carry the raw 1-step reward",
                   got=rr, want=[_reward(k, e) for e in range(E)])
         stored += 1
+        stored_ks.append(k)
+        if t in clears:
+            with ctx.promised("C10/clear"):
+                nbuf.clear()
+                mem.clear()
+            stored_ks, cand_base = [], t + 1
+            ctx.label("cleared-and-reused" if t < T - 1 else "cleared-at-end")
 
+    stored = len(stored_ks)
     if stored == 0:
         ctx.check(len(nbuf) == 0 and len(mem) == 0, "C10/len/nonempty", "rows stored before any window was full")
         return
@@ -106,7 +131,7 @@ def run_stream(case, ctx):
     # map storage position -> (k, e) of the newest row written there
     pos2row = {}
     for r in range(total_rows):
-        pos2row[r % cap] = (r // E, r % E)
+        pos2row[r % cap] = (stored_ks[r // E], r % E)
 
     ns, ms = nbuf.storage, mem.storage
     labels = set()
@@ -206,7 +231,8 @@ def stream_strategy(draw, tier):
                           min_size=T, max_size=T))
     cap = draw(st.integers(E, 36))
     return {"n": n, "gamma": draw(st.integers(0, 3)), "cap": cap, "dones": dones,
-            "vectorised": draw(st.booleans()), "bs": draw(st.integers(0, 20)), "seed": draw(st.integers(0, 99))}
+            "vectorised": draw(st.booleans()), "bs": draw(st.integers(0, 20)), "seed": draw(st.integers(0, 99)),
+            "clears": draw(st.lists(st.integers(0, T - 1), max_size=2, unique=True)) if draw(st.integers(0, 3)) == 0 else []}
 
 
 PROPERTY = Property(
